@@ -981,6 +981,23 @@ func gatherOperations(specDoc *analysis.Spec, operationIDs []string) map[string]
 	return operations
 }
 
+// checkAllOperationsGathered reports the operations that gatherOperations could not keep apart: when
+// no selection is requested, every operation of the spec must end up with its own name.
+func checkAllOperationsGathered(specDoc *analysis.Spec, operationIDs []string, operations map[string]opRef) error {
+	if len(pruneEmpty(operationIDs)) > 0 {
+		return nil
+	}
+	total := 0
+	for _, pathItem := range specDoc.Operations() {
+		total += len(pathItem)
+	}
+	if len(operations) < total {
+		return fmt.Errorf("%d operations of the spec resolve to only %d distinct operation names: "+
+			"set distinct operationIds on the operations whose names collide", total, len(operations))
+	}
+	return nil
+}
+
 func pruneEmpty(in []string) (out []string) {
 	for _, v := range in {
 		if v != "" {
